@@ -520,7 +520,7 @@ fn key_sweep(len: usize, sh: &util::Shard) -> Report {
 
 pub fn run(ctx: &Ctx) -> i32 {
     let mut total = Report::new();
-    let cfg = util::ForkCfg { threads: ctx.threads, mem_bytes: 4 << 30, case_timeout_s: 180, died_signature: "C05/abort".into() };
+    let cfg = util::ForkCfg { threads: ctx.threads, mem_bytes: 4 << 30, case_timeout_s: 180, died_signature: "C05/abort".into(), resource_is_violation: false };
     let mut memo = Vec::new();
     let nmax = if ctx.quick() { 3 } else { 4 };
     let mut vals = Vec::new();
